@@ -32,6 +32,10 @@ KNOWN_TEXT = {
     "F-C02-6": "list.Range has no bound on the number of elements (list.Range(0, 1e10, 1) runs until the CPU limit / memory cap)",
     "F-C02-7": "f: {e: strings.ToUpper(and([_, f]))}: rendering the error text recurses without bound in "
                "internal/core/debug (shortError -> writeErr -> formatter.String -> compactNode), fatal stack overflow",
+    "F-C02-8": "c: close({if c != _|_ {w: {for v in c {x: 1}}}}) + for v in c {}: nil pointer dereference in "
+               "Vertex.AddStruct (processComprehension -> scheduleStruct) escapes Value.Fields/BuildFile",
+    "F-C02-9": "g: {if a != _|_ {c: _, if c {}}, for v in {r: []} {v}} with an erroneous self-referential a: nil pointer "
+               "dereference in adt.processListLit escapes BuildFile (cue eval crashes)",
 }
 
 
